@@ -69,6 +69,7 @@ def histories(draw, tier):
                                   st.tuples(st.just("close-group"), st.integers(0, 6)).map(list),
                                   st.tuples(st.just("reiter"), st.integers(0, 6)).map(list),
                                   st.just(["drop-groupby"]),
+                                  st.tuples(st.just("abandon"), st.integers(0, 7)).map(list),
                                   st.just(["close-current"])),
                         min_size=draw(st.sampled_from([0, 4, 6])), max_size=15 if tier == "quick" else 25))
     if strict_mixed and draw(st.booleans()):
@@ -132,6 +133,15 @@ def check(case):
                     groups_a.append(ga)
                     groups_s.append(gs)
                     taken_from_current = 0
+            elif op[0] == "abandon":
+                # an advance of the groupby / a poll of a group that is only REQUESTED - the awaitable is made, never
+                # started, and thrown away (a task cancelled before its first step): nothing has happened
+                target = gb_a if (op[1] % 2 == 0 or not groups_a) else groups_a[op[1] % len(groups_a)]
+                if target is not None and not (target is not gb_a and (op[1] % len(groups_a)) in closed):
+                    never_started = target.__anext__()
+                    if hasattr(never_started, "close"):
+                        never_started.close()
+                    del never_started
             elif op[0] == "drop-groupby":
                 # the consumer keeps only the groups (``key, group = await anext(groupby(...))``): a group goes on
                 # working without anybody holding the groupby object, as an itertools group does
